@@ -629,6 +629,10 @@ htp_status_t htp_connp_RES_BODY_DETERMINE(htp_connp_t *connp) {
 
             htp_table_clear(connp->out_tx->response_headers);
 
+            // The headers of the interim response end here: finalize the raw header data receiver.
+            htp_status_t rc = htp_connp_res_receiver_finalize_clear(connp);
+            if (rc != HTP_OK) return rc;
+
             HTP_VERIF_TP(connp, connp->out_tx, "res_100_continue");
             // Expecting to see another response line next.
             connp->out_state = htp_connp_RES_LINE;
